@@ -57,3 +57,45 @@ M("C16", "C16-RUN", MP, "        results.append(res)\n\n    return results", "  
 M("C16", "C16-RUN", MP, 'raise ValueError("Don\'t specify both n_prior_samples and samples_idx")', "pass", "both selectors accepted")
 M("C16", "C16-TUPLE", MP, "    slice_or_idx, task_id, prior_samples_file, joker_helper = task\n", "    slice_or_idx, task_id, joker_helper, prior_samples_file = task\n", "worker unpack order swapped")
 M("C16", "C16-TUPLE", MP, "    task_args = (prior_samples_file, joker_helper, n_linear_samples)\n", "    task_args = (prior_samples_file, joker_helper, n_linear_samples, pool)\n", "producer adds an element the worker does not unpack")
+
+# ---------------------------------------------------------------- C10
+M("C10", "C10-GLOBAL", LH, "    uu = rng.uniform(size=len(lls))\n", "    np.random.seed(42)\n    uu = rng.uniform(size=len(lls))\n", "np.random.seed added")
+M("C10", "C10-GLOBAL", PR, "        samples_values = pm.draw(par_list, draws=size, random_seed=rng)\n",
+  "        from .utils import rng_context\n        with rng_context(rng):\n            samples_values = pm.draw(par_list, draws=size, random_seed=rng)\n", "rng_context used in JokerPrior.sample")
+M("C10", "C10-GLOBAL", LH, "    uu = rng.uniform(size=len(lls))\n", "    import random\n    uu = rng.uniform(size=len(lls)) * (1 - 1e-16 * random.random())\n", "stdlib random")
+M("C10", "C10-GLOBAL", MP, "    uu = rng.uniform(size=len(lls))\n", "    uu = np.random.uniform(size=len(lls))\n", "acceptance uniforms from the global RNG")
+M("C10", "C10-PROV", LH, "    uu = rng.uniform(size=len(lls))\n", "    uu = np.random.default_rng().uniform(size=len(lls))\n", "draw site switched to a fresh generator")
+M("C10", "C10-F", MP, "        batch, n_linear_samples, rng\n", "        batch, n_linear_samples, np.random.default_rng(task_id)\n", "worker ignores its task generator (seeds by task id)")
+M("C10", "C10-PROV", PR, "pm.draw(par_list, draws=size, random_seed=rng)", "pm.draw(par_list, draws=size)", "pm.draw without random_seed")
+M("C10", "C10-FWD", TJ, "                size=N, return_logprobs=return_logprobs, rng=self.rng\n", "                size=N, return_logprobs=return_logprobs\n", "rng not forwarded to prior.sample (reverse of fix)")
+M("C10", "C10-FWD", MP, "        samples_idx=samples_idx,\n        rng=rng,\n    )", "        samples_idx=samples_idx,\n    )", "make_full_samples does not hand rng to run_worker")
+M("C10", "C10-FWD", TJ, "                prior_samples,\n                rng=self.rng,\n                ln_prior=ln_prior,\n                max_posterior_samples", "                prior_samples,\n                rng=np.random.default_rng(),\n                ln_prior=ln_prior,\n                max_posterior_samples", "in-memory rejection gets a fresh generator")
+M("C10", "C10-FWD", UT, "            units=units,\n            rng=rng,\n        )", "            units=units,\n        )", "read_batch drops rng on the random branch")
+M("C10", "C10-SPAWN", MP, "Generator(PCG64(sg[i]))", "Generator(PCG64(sg[0]))", "every batch gets child 0")
+M("C10", "C10-SPAWN", MP, "_seed_seq.spawn(len(tasks))", "_seed_seq.spawn(1) * len(tasks)", "one child replicated")
+M("C10", "C10-SPAWN", MP, "Generator(PCG64(sg[i]))", "Generator(PCG64())", "unseeded bit generator per task")
+M("C10", "C10-SPAWN", MP, "Generator(PCG64(sg[i]))", "Generator(PCG64(i))", "task generators seeded by task number (same across calls)")
+M("C10", "C10-SELFRNG", TJ, "        joker_helper = self._make_joker_helper(data)  # also validates data\n\n        if isinstance(prior_samples, int):",
+  "        joker_helper = self._make_joker_helper(data)  # also validates data\n        self.rng = np.random.default_rng(0)\n\n        if isinstance(prior_samples, int):", "sampler reseeds itself on each call")
+T("C10", MP, "    uu = rng.uniform(size=len(lls))\n", "    gen = rng\n    uu = gen.uniform(size=len(lls))\n", "generator alias")
+T("C10", MP, "        sg = rng.bit_generator._seed_seq.spawn(len(tasks))\n", "        seed_seq = rng.bit_generator._seed_seq\n        sg = seed_seq.spawn(len(tasks))\n", "seed sequence temporary")
+
+# ---------------------------------------------------------------- C13
+M("C13", "C13-TMP", UT, "            except Exception as e:\n                raise e\n            finally:\n                os.unlink(f.name)\n", "            except Exception as e:\n                raise e\n            os.unlink(f.name)\n", "finally removed: unlink only on success")
+M("C13", "C13-TMP", UT, "            finally:\n                os.unlink(f.name)\n", "            finally:\n                if func_return is not None:\n                    os.unlink(f.name)\n", "unlink guarded")
+M("C13", "C13-TMP", UT, "            f.close()\n\n            try:\n                # write samples to tempfile and recursively call this method\n                prior_samples.write(f.name, overwrite=True)\n",
+  "            f.close()\n            prior_samples.write(f.name, overwrite=True)\n\n            try:\n", "cache write hoisted out of the try")
+M("C13", "C13-TMP", UT, "            except Exception as e:\n                raise e\n            finally:", "            except Exception as e:\n                func_return = None\n            finally:", "wrapper swallows the failure")
+M("C13", "C13-SWALLOW", MP, "    results = []\n    for res in pool.map(worker, tasks):\n        results.append(res)\n",
+  "    results = []\n    try:\n        for res in pool.map(worker, tasks):\n            results.append(res)\n    except Exception:\n        logger.warning('worker failed')\n", "pool failure logged, not raised")
+M("C13", "C13-SWALLOW", UT, "        for i, name in enumerate(columns):\n            batch[:, i] = f.root[path].read_coordinates(idx, field=name)\n",
+  "        for i, name in enumerate(columns):\n            try:\n                batch[:, i] = f.root[path].read_coordinates(idx, field=name)\n            except IndexError:\n                pass\n", "out-of-range rows silently left zero")
+T("C13", UT, "            except Exception as e:\n                raise e\n", "            except Exception:\n                raise\n", "bare re-raise")
+M("C13", "C13-RO", MP, '    with tb.open_file(prior_samples_file, mode="r") as f:\n        n_samples', '    with tb.open_file(prior_samples_file, mode="a") as f:\n        n_samples', "run_worker opens the library in append mode")
+M("C13", "C13-RO", UT, '    with h5py.File(prior_samples_file, mode="r") as f:\n        table_units = table_header_to_units(f[meta_path(path)])\n\n    batch = None',
+  '    with h5py.File(prior_samples_file, mode="r+") as f:\n        table_units = table_header_to_units(f[meta_path(path)])\n\n    batch = None', "slice reader opens r+")
+M("C13", "C13-RO", UT, '    with tb.open_file(prior_samples_file, mode="r") as f:\n        idx = rng.choice(f.root[path].shape[0], size=size, replace=False)\n',
+  '    f = tb.open_file(prior_samples_file, mode="r")\n    idx = rng.choice(f.root[path].shape[0], size=size, replace=False)\n    f.close()\n', "handle not context-managed")
+M("C13", "C13-WRITE", MP, "    # compute likelihoods\n    lls = marginal_ln_likelihood_helper(**ll_kw)\n", "    # compute likelihoods\n    lls = marginal_ln_likelihood_helper(**ll_kw)\n    import os\n    os.remove(prior_samples_file)\n", "helper deletes the library it was given")
+M("C13", "C13-WRITE", MP, "    task_args = (prior_samples_file, joker_helper)\n", "    task_args = (prior_samples_file, joker_helper)\n    joker_helper.prior.sample(size=1).write(prior_samples_file, append=True)\n", "helper appends to the user's file")
+M("C13", "C13-STATE", TJ, "            samples = rejection_sample_inmem(", "            self._last_helper = joker_helper\n            samples = rejection_sample_inmem(", "sampler caches per-call state on self")
